@@ -152,16 +152,27 @@ def bodies_ok(res):
 
 
 def theorem_scope(res):
-    """how many corpus definitions lie inside the decidable fragment of C01_derive_layer (plain_defb)"""
-    body = ("From TsRs Require Import Corr.%s Proofs.Sem_derive_proofs.\n" % res["envname"] + CR.HEADER +
-            "Eval vm_compute in (N.of_nat (length R), N.of_nat (length (filter (fun p => plain_defb (snd p)) R))).\n")
-    ok, out = vlib.coq_eval("%s_scope" % res["envname"], body, timeout=600)
+    """the largest sub-environment of the corpus to which C01_derive_layer applies: definitions inside the decidable
+    fragment (plain_defb) whose references stay inside it, one definition per TypeScript name; returns
+    (corpus definitions, definitions in that sub-environment, plain_envb of it)"""
+    body = ("From TsRs Require Import Corr.%s Proofs.Sem_derive_proofs.\n" % res["envname"] + CR.HEADER + """
+Definition shrink (R' : env) : env :=
+  filter (fun p => plain_defb (snd p) && is_ok (decl_of is_upper is_alnum is_numeric R' fuel (snd p))) R'.
+Fixpoint dedup (seen : list str) (R' : env) : env :=
+  match R' with
+  | [] => []
+  | p :: r => if existsb (str_eqb (ts_ident (snd p))) seen then dedup seen r else p :: dedup (ts_ident (snd p) :: seen) r
+  end.
+Definition R1 : env := shrink (shrink (shrink (shrink (shrink (shrink (dedup [] R)))))).
+Eval vm_compute in (N.of_nat (length R), N.of_nat (length R1), if plain_envb is_upper is_alnum is_numeric R1 fuel then 1%N else 0%N).
+""")
+    ok, out = vlib.coq_eval("%s_scope" % res["envname"], body, timeout=900)
     if not ok:
         raise vlib.HarnessError("scope file failed: " + out[-3000:])
-    m = re.search(r"=\s*\((\d+)(?:%N)?,\s*(\d+)(?:%N)?\)", out)
+    m = re.search(r"=\s*\((\d+)(?:%N)?,\s*(\d+)(?:%N)?,\s*(\d+)(?:%N)?\)", out)
     if not m:
         raise vlib.HarnessError("scope file: unexpected output " + out[-500:])
-    return int(m.group(1)), int(m.group(2))
+    return int(m.group(1)), int(m.group(2)), int(m.group(3))
 
 
 def overrides(res, sound_ok=False):
